@@ -5,7 +5,15 @@ straddles the int / unsigned int / long / unsigned long boundaries, each
 enumerator being an explicit value, implicit (previous + 1) or "= an earlier
 enumerator".  Oracle: gcc -std=gnu11 (sizeof, signedness, every value);
 sequences gcc rejects are excluded and counted.  ffi.string() of every value
-of the enum and of two values outside it follows the first-declared rule.
+of the enum and of 13 fixed values cast to it follows the first-declared rule.
+
+Further finite families (see _c10_space.py): other declaration forms (typedef'd
+anonymous / typedef'd tagged / value-only / mentioned again later / two
+declarators / struct field / anonymous struct field / function result),
+enumerators that refer to constants declared earlier OUTSIDE the enum (tagged
+enum, anonymous enum, #define) and hex / octal / suffixed spellings, enumerator
+name shapes (prefix related, sorted order != declaration order, interleaving
+between enums), long implicit runs, and enums seen through ffi.include().
 """
 import contextlib
 import ctypes
@@ -15,101 +23,41 @@ import itertools
 import os
 import re
 import subprocess
+import sys
 
 from .. import build, cref, pool
 from ..build import InfraError
+from . import _c10_space as sp
+from ._c10_space import VALUES, SUBSET, SUBSET5, CASTS, make_item
 
 ID = "C10"
 LEVEL = "exploration"
 META = dict(
     engine="E1-enum", level="exploration",
     technique="bounded exhaustive enumeration of enum declarations (all enumerator sequences up to a length over a "
-              "boundary value alphabet incl. implicit and back-references) compared with gcc in in-line, out-of-line "
+              "boundary value alphabet incl. implicit and back-references; declaration forms, cross-enum / #define "
+              "references, name shapes, long implicit runs, include()) compared with gcc in in-line, out-of-line "
               "ABI and compiled API mode",
     text="All enumerator sequences of length <= 3 over 13 boundary values (-2^63 .. 2^64-1) + implicit + '= earlier "
          "name', and length 4 over a 6-value subset (thorough: length 4 over everything, length 5 over a 4-value subset), are "
          "declared in an in-line FFI, an out-of-line ABI module and a compiled API module; sizeof, signedness, every "
-         "enumerator value (lib.X, integer_const, relements) and ffi.string() of every value and of two values outside "
-         "the enum are compared with what gcc -std=gnu11 gives the same declaration.",
-    note="gcc 12 -std=gnu11 on this machine is the authority, including for which declarations are valid at all")
+         "enumerator value (lib.X, integer_const, relements) and ffi.string() of every value and of 13 fixed values cast "
+         "to the enum (small ones, -1, the minima / maxima of int, unsigned, long, unsigned long: decimal strings above "
+         "INT_MAX and wrapped casts) are compared with what gcc -std=gnu11 gives the same declaration.  Additional "
+         "exhaustive families: (form) the length <= 2 sequences declared as 'typedef enum {..} t;', 'typedef enum tag {..} t;', "
+         "value-only 'enum {..};', struct field 'struct h { char c; enum tag {..} f; }' (also offsetof / sizeof of the "
+         "struct), and on a subset 'enum tag {..}; typedef enum tag u;', 'typedef enum {..} t, *p;', a field of anonymous "
+         "enum type, a function result type; (xref) length <= 2 sequences where an enumerator is '= PRE_i' / '= AN_i' / "
+         "'= DEF_i' (enumerator of an earlier tagged / anonymous enum, integer #define; quick: 6 values, thorough: 13) or a "
+         "hex / octal / suffixed literal; (names) enumerator names that are prefixes of one another, whose sorted order differs "
+         "from declaration order and which interleave with those of the other enums of the module, in every arrangement; "
+         "(big) 300 (thorough also 2000) enumerators, one start value and an implicit run across each type boundary; "
+         "(include) enums observed through a second FFI / module that include()s the declaring one, in the 3 modes.",
+    note="gcc 12 -std=gnu11 on this machine is the authority, including for which declarations are valid at all; "
+         "forward references to an enum before its body (a GNU extension that cffi refuses with NotImplementedError) and "
+         "negated / arithmetic literal spellings (C09) are not part of the space")
 
-# value alphabet: (label, value, C spelling valid for both gcc and the statement's literal forms)
-VALUES = [
-    ("-2^63", -2 ** 63, "(-9223372036854775807-1)"),
-    ("-2^31-1", -2 ** 31 - 1, "-2147483649"),
-    ("-2^31", -2 ** 31, "-2147483648"),
-    ("-1", -1, "-1"),
-    ("0", 0, "0"),
-    ("1", 1, "1"),
-    ("2^31-1", 2 ** 31 - 1, "2147483647"),
-    ("2^31", 2 ** 31, "2147483648"),
-    ("2^32-1", 2 ** 32 - 1, "4294967295"),
-    ("2^32", 2 ** 32, "4294967296"),
-    ("2^63-1", 2 ** 63 - 1, "9223372036854775807"),
-    ("2^63", 2 ** 63, "9223372036854775808u"),
-    ("2^64-1", 2 ** 64 - 1, "18446744073709551615u"),
-]
-SUBSET = [3, 4, 6, 7, 8, 11]        # -1, 0, 2^31-1, 2^31, 2^32-1, 2^63
-SUBSET5 = [3, 6, 8, 11]             # -1, 2^31-1, 2^32-1, 2^63 (length 5, thorough)
-LETTERS = "abcdefgh"
-BLOCK = 400
-
-# an enumerator: ("v", index into VALUES) | ("i",) | ("r", position of an earlier enumerator)
-
-
-def sequences(length, alphabet):
-    opts_v = [("v", i) for i in alphabet]
-
-    def rec(prefix):
-        if len(prefix) == length:
-            yield tuple(prefix)
-            return
-        k = len(prefix)
-        for o in opts_v + [("i",)] + [("r", j) for j in range(k)]:
-            prefix.append(o)
-            for s in rec(prefix):
-                yield s
-            prefix.pop()
-    return rec([])
-
-
-def enumerate_space(ctx):
-    full = list(range(len(VALUES)))
-    if ctx.quick:
-        plan = [(1, full), (2, full), (3, full), (4, SUBSET)]
-    else:
-        plan = [(1, full), (2, full), (3, full), (4, full), (5, SUBSET5)]
-    seen = set()
-    out = []
-    for n, alph in plan:
-        for s in sequences(n, alph):
-            if s not in seen:
-                seen.add(s)
-                out.append(s)
-    return out, plan
-
-
-def enum_text(seq, tag):
-    parts = []
-    for k, e in enumerate(seq):
-        nm = "%s%s" % (tag, LETTERS[k])
-        if e[0] == "v":
-            parts.append("%s = %s" % (nm, VALUES[e[1]][2]))
-        elif e[0] == "i":
-            parts.append(nm)
-        else:
-            parts.append("%s = %s%s" % (nm, tag, LETTERS[e[1]]))
-    return "enum %s { %s };" % (tag, ", ".join(parts))
-
-
-def classes(seq):
-    cl = []
-    if any(e[0] == "i" for e in seq):
-        cl.append("has_implicit")
-    if any(e[0] == "r" for e in seq):
-        cl.append("has_backref")
-    return cl
-
+BLOCK = 330
 
 # ---------------------------------------------------------------------------------------
 # gcc
@@ -119,19 +67,20 @@ NO_TYPE = "enumeration values exceed range of largest integer"
 
 
 def gcc_accepts(texts):
-    """Which of the declarations (one per line) gcc -std=gnu11 has an answer for.
-    -> list of None (accepted) | "error" | "no_type" (gcc itself says that no integer type can
+    """Which of the declarations (one per line, after the prelude of earlier constants) gcc -std=gnu11 has an
+    answer for.  -> list of None (accepted) | "error" | "no_type" (gcc itself says that no integer type can
     hold the values and truncates: the authority has no answer), plus other warnings seen."""
+    pre = sp.prelude()
     fn = os.path.join(build.scratch(), "c10_acc_%d.c" % os.getpid())
     with open(fn, "w") as f:
-        f.write("\n".join(texts) + "\n")
+        f.write("\n".join(pre + list(texts)) + "\n")
     p = subprocess.run(["gcc", "-std=gnu11", "-fsyntax-only", "-fno-diagnostics-show-caret", fn], stdout=subprocess.PIPE,
                        stderr=subprocess.PIPE, text=True)
     res = [None] * len(texts)
     other = set()
     nerr = 0
     for m in _r_diag.finditer(p.stderr):
-        ln, sev, msg = int(m.group(1)), m.group(2), m.group(3)
+        ln, sev, msg = int(m.group(1)) - len(pre), m.group(2), m.group(3)
         if not (1 <= ln <= len(texts)):
             raise InfraError("gcc diagnostic outside the declarations:\n" + p.stderr[-2000:])
         if sev == "error":
@@ -147,22 +96,31 @@ def gcc_accepts(texts):
     return res, sorted(other)
 
 
-def gcc_facts(items):
-    """items: [(tag, seq, text)] all accepted by gcc -> {tag: (size, signed, [values])}.
+def _sval(neg, u):
+    return u - (1 << 64) if neg else u
+
+
+def gcc_facts(items, prelude):
+    """items all accepted by gcc -> {tag: {"size", "signed", "values", "casts": {c: (T)c}, "offset", "ssize"}}.
     The facts are constant initialisers of one table, compiled to a shared object and read
     with ctypes (no code to generate: several times cheaper than printing them)."""
-    src = []
+    src = [ln + "\n" for ln in (sp.prelude() if prelude else [])]
     cells = []
-    for tag, seq, text in items:
-        src.append(text + "\n")
-        cells.append("sizeof(enum %s), ((enum %s)-1) < 0" % (tag, tag))
-        for k in range(len(seq)):
-            nm = tag + LETTERS[k]
+    for it in items:
+        src.append(it["text"] + "\n")
+        ct = it["CT"]
+        if ct is not None:
+            cells.append("sizeof(%s), ((%s)-1) < 0" % (ct, ct))
+            for c in CASTS:
+                cells.append("((%s)(%s)) < 0, (unsigned long long)((%s)(%s))" % (ct, sp.lit(c), ct, sp.lit(c)))
+        for nm in it["names"]:
             cells.append("%s < 0, (unsigned long long)%s" % (nm, nm))
+        if it["struct"]:
+            cells.append("__builtin_offsetof(%s, f), sizeof(%s)" % (it["struct"], it["struct"]))
     src.append("const unsigned long long c10_tab[] = {\n" + ",\n".join(cells) + "\n};\n")
-    so = cref.compile_so("".join(src), flags=["-std=gnu11"], name="c10facts")
+    so = cref.compile_so("".join(src), flags=["-std=gnu11", "-w"], name="c10facts")
     lib = ctypes.CDLL(so)
-    n = 2 * (len(items) + sum(len(seq) for _, seq, _ in items))
+    n = 2 * len(cells)
     tab = list((ctypes.c_ulonglong * n).in_dll(lib, "c10_tab"))
     for fn in (so, so + ".c"):
         try:
@@ -171,26 +129,36 @@ def gcc_facts(items):
             pass
     res = {}
     pos = 0
-    for tag, seq, text in items:
-        size, signed = tab[pos], bool(tab[pos + 1])
-        pos += 2
-        values = []
-        for k in range(len(seq)):
-            v = tab[pos + 1]
-            if tab[pos]:
-                v -= 1 << 64
-            values.append(v)
+    for it in items:
+        f = {"size": None, "signed": None, "casts": {}, "offset": None, "ssize": None}
+        if it["CT"] is not None:
+            f["size"], f["signed"] = tab[pos], bool(tab[pos + 1])
             pos += 2
-        res[tag] = [size, signed, values]
+            for c in CASTS:
+                f["casts"][c] = _sval(tab[pos], tab[pos + 1])
+                pos += 2
+        values = []
+        for nm in it["names"]:
+            values.append(_sval(tab[pos], tab[pos + 1]))
+            pos += 2
+        f["values"] = values
+        if it["struct"]:
+            f["offset"], f["ssize"] = tab[pos], tab[pos + 1]
+            pos += 2
+        res[it["tag"]] = f
+    if pos != n:
+        raise InfraError("facts table misread")
     return res
 
 
 # ---------------------------------------------------------------------------------------
 # cffi, three modes
 
-def _import(name, path):
+def _import(name, path, register=False):
     spec = importlib.util.spec_from_file_location(name, path)
     mod = importlib.util.module_from_spec(spec)
+    if register:
+        sys.modules[name] = mod         # a module that include()s this one imports it by name
     spec.loader.exec_module(mod)
     return mod
 
@@ -202,30 +170,51 @@ def _err(e):
     return "error:%s: %s" % (type(e).__name__, str(e)[:200])
 
 
-def open_mode(mode, items):
-    """Declare all items in one FFI of the given mode -> (ffi, lib, has_integer_const)."""
+class Opened(object):
+    """One FFI in one mode: .ffi/.lib to observe, .builder/.name/.csource to include() it from another one."""
+
+
+def open_mode(mode, items, prelude, include_of=None):
+    """Declare all items in one FFI of the given mode; with include_of (an Opened of the same mode) declare nothing
+    and include() that one instead."""
     import cffi
-    text = "\n".join(t for _, _, t in items) + "\n"
     f = cffi.FFI()
-    f.cdef(text)
+    if include_of is None:
+        pre = (sp.prelude() if prelude else [])
+        text = "\n".join(pre + [it["text"] for it in items]) + "\n"
+        csource = "\n".join(pre + [it["ctext"] for it in items]) + "\n"
+        f.cdef(text)
+    else:
+        f.include(include_of.builder)
+        csource = include_of.csource
+    o = Opened()
+    o.builder, o.csource, o.name = f, csource, None
     if mode == "inline":
-        return f, f.dlopen(None), False
+        o.ffi, o.lib, o.has_ic = f, f.dlopen(None), False
+        return o
     d = os.path.join(build.scratch(), "c10")
     os.makedirs(d, exist_ok=True)
-    name = "c10_%s_%d_%d" % (mode, os.getpid(), next(_modcount))
+    name = o.name = "c10_%s_%d_%d" % (mode, os.getpid(), next(_modcount))
     if mode == "abi":
         f.set_source(name, None)
         f.compile(tmpdir=d, verbose=0)
-        m = _import(name, os.path.join(d, name + ".py"))
-        return m.ffi, m.ffi.dlopen(None), True
-    so = compile_api(f, name, text, d)
-    m = _import(name, so)
+        m = _import(name, os.path.join(d, name + ".py"), register=True)
+        o.ffi, o.lib, o.has_ic = m.ffi, m.ffi.dlopen(None), True
+        return o
+    so = compile_api(f, name, csource, d)
+    m = _import(name, so, register=True)
     for fn in (so, os.path.join(d, name + ".c")):
         try:
             os.unlink(fn)
         except OSError:
             pass
-    return m.ffi, m.lib, True
+    o.ffi, o.lib, o.has_ic = m.ffi, m.lib, True
+    return o
+
+
+def close_mode(o):
+    if o is not None and o.name:
+        sys.modules.pop(o.name, None)
 
 
 class GeneratedCodeRejected(Exception):
@@ -247,31 +236,38 @@ def compile_api(f, name, csource, d):
     return so
 
 
-def outside_values(signed, values):
-    cands = [7, 11, 13] if not signed else [7, -7, 11, -11]
-    return [c for c in cands if c not in values][:2]
+def string_inputs(gf):
+    """values handed to ffi.cast(T, .) for ffi.string(): every value of the enum, then the fixed CASTS"""
+    vs = sorted(set(gf["values"]))
+    return vs + [c for c in CASTS if c not in vs]
 
 
-def observe(ffi, lib, has_ic, tag, seq, gf):
+def observe(ffi, lib, has_ic, it, gf):
     """Everything the statement names for one enum.  gf (gcc's facts) is used only to
     choose which values to cast; nothing observed is derived from it."""
-    T = "enum " + tag
     o = {}
-    try:
-        o["size"] = ffi.sizeof(T)
-    except Exception as e:
-        o["size"] = _err(e)
-    try:
-        o["signed"] = int(ffi.cast(T, -1)) < 0
-    except Exception as e:
-        o["signed"] = _err(e)
+    T = it["T"]
+    if isinstance(T, tuple):            # the type of a struct field
+        try:
+            T = dict(ffi.typeof(T[1]).fields)[T[2]].type
+        except Exception as e:
+            T = None
+            o["size"] = o["signed"] = _err(e)
+    if T is not None:
+        try:
+            o["size"] = ffi.sizeof(T)
+        except Exception as e:
+            o["size"] = _err(e)
+        try:
+            o["signed"] = int(ffi.cast(T, -1)) < 0
+        except Exception as e:
+            o["signed"] = _err(e)
+        try:
+            relements = (ffi.typeof(T) if isinstance(T, str) else T).relements
+        except Exception as e:
+            relements = _err(e)
     vals, ics, rel = [], [], []
-    try:
-        relements = ffi.typeof(T).relements
-    except Exception as e:
-        relements = _err(e)
-    for k in range(len(seq)):
-        nm = tag + LETTERS[k]
+    for nm in it["names"]:
         try:
             vals.append(getattr(lib, nm))
         except Exception as e:
@@ -281,110 +277,196 @@ def observe(ffi, lib, has_ic, tag, seq, gf):
                 ics.append(ffi.integer_const(nm))
             except Exception as e:
                 ics.append(_err(e))
-        rel.append(relements.get(nm, "missing") if isinstance(relements, dict) else relements)
+        if T is not None:
+            rel.append(relements.get(nm, "missing") if isinstance(relements, dict) else relements)
     o["lib"] = vals
-    o["relements"] = rel
+    if T is not None:
+        o["relements"] = rel
     if has_ic:
         o["integer_const"] = ics
-    st = {}
-    for v in sorted(set(gf[2])) + outside_values(gf[1], gf[2]):
+    if T is not None:
+        st = {}
+        for v in string_inputs(gf):
+            try:
+                st[v] = ffi.string(ffi.cast(T, v))
+            except Exception as e:
+                st[v] = _err(e)
+        o["string"] = st
+    if it["struct"]:
         try:
-            st[v] = ffi.string(ffi.cast(T, v))
+            o["field_offset"] = ffi.offsetof(it["struct"], "f")
         except Exception as e:
-            st[v] = _err(e)
-    o["string"] = st
+            o["field_offset"] = _err(e)
+        try:
+            o["struct_size"] = ffi.sizeof(it["struct"])
+        except Exception as e:
+            o["struct_size"] = _err(e)
     return o
 
 
-def expected(tag, seq, gf):
-    size, signed, values = gf
-    first = {}
-    for k, v in enumerate(values):
-        first.setdefault(v, tag + LETTERS[k])
-    st = {}
-    for v in sorted(set(values)) + outside_values(signed, values):
-        st[v] = first.get(v, str(v))
-    return {"size": size, "signed": signed, "values": list(values), "string": st}
+def expected(it, gf):
+    values = gf["values"]
+    x = {"values": list(values)}
+    if it["CT"] is not None:
+        first = {}
+        for nm, v in zip(it["names"], values):
+            first.setdefault(v, nm)
+        st = {}
+        for v in string_inputs(gf):
+            w = v if v in first else gf["casts"][v]        # the enum's own values are representable in its type
+            st[v] = first.get(w, str(w))
+        x.update(size=gf["size"], signed=gf["signed"], string=st)
+    if it["struct"]:
+        x.update(field_offset=gf["offset"], struct_size=gf["ssize"])
+    return x
 
 
 def compare(o, x):
     bad = []
-    if o["size"] != x["size"]:
-        bad.append(("size", o["size"], x["size"]))
-    if o["signed"] != x["signed"]:
-        bad.append(("signed", o["signed"], x["signed"]))
+    for key in ("size", "signed"):
+        if key in x or key in o:
+            if o.get(key, "absent") != x.get(key, "absent"):
+                bad.append((key, o.get(key, "absent"), x.get(key, "absent")))
     for key in ("lib", "relements", "integer_const"):
         if key in o and o[key] != x["values"]:
             bad.append(("value_" + key, o[key], x["values"]))
-    if o["string"] != x["string"]:
-        bad.append(("string", o["string"], x["string"]))
+    if "string" in x or "string" in o:
+        so, sx = o.get("string", {}), x.get("string", {})
+        if so != sx:
+            diff = sorted(k for k in set(so) | set(sx) if so.get(k) != sx.get(k))
+            bad.append(("string", {k: so.get(k) for k in diff}, {k: sx.get(k) for k in diff}))
+    # the layout of a struct with a field of the enum type: a consequence of the underlying integer type
+    for key in ("field_offset", "struct_size"):
+        if key in x and o.get(key) != x[key]:
+            bad.append((key, o.get(key), x[key]))
     return bad
 
 
-def run_mode(mode, items, facts, out):
-    """Observe all items in `mode`; if declaring them together fails, split."""
+def run_mode(mode, items, facts, prelude, include, out, ev):
+    """Observe all items in `mode` (and, with include, again through an FFI that includes the first);
+    if declaring them together fails, split."""
+    o1 = o2 = None
     try:
-        ffi, lib, has_ic = open_mode(mode, items)
-    except Exception as e:
-        if len(items) == 1:
-            tag, seq, text = items[0]
-            out.append((mode, tag, seq, text, [("rejected", _err(e), "accepted by gcc")]))
+        try:
+            o1 = open_mode(mode, items, prelude)
+            if include:
+                o2 = open_mode(mode, items, prelude, include_of=o1)
+        except Exception as e:
+            if len(items) == 1:
+                out.append((mode if o1 is None else mode + "+include", items[0],
+                            [("rejected", _err(e), "accepted by gcc")]))
+                return
+            h = len(items) // 2
+            run_mode(mode, items[:h], facts, prelude, include, out, ev)
+            run_mode(mode, items[h:], facts, prelude, include, out, ev)
             return
-        h = len(items) // 2
-        run_mode(mode, items[:h], facts, out)
-        run_mode(mode, items[h:], facts, out)
-        return
-    for tag, seq, text in items:
-        bad = compare(observe(ffi, lib, has_ic, tag, seq, facts[tag]), expected(tag, seq, facts[tag]))
-        if bad:
-            out.append((mode, tag, seq, text, bad))
+        for it in items:
+            gf = facts[it["tag"]]
+            x = expected(it, gf)
+            for label, o in ((mode, o1), (mode + "+include", o2)):
+                if o is None:
+                    continue
+                ev[0] += 1
+                bad = compare(observe(o.ffi, o.lib, o.has_ic, it, gf), x)
+                if bad:
+                    out.append((label, it, bad))
+    finally:
+        close_mode(o2)
+        close_mode(o1)
 
 
 MODES = ("inline", "abi", "api")
 
 
+def classify(it, gf, cnt):
+    values = gf["values"]
+    cnt("family_" + it["fam"])
+    if it["form"] != "tag":
+        cnt("form_" + it["form"])
+    if it["CT"] is not None:
+        size, signed = gf["size"], gf["signed"]
+        ty = "%s%d" % ("i" if signed else "u", size * 8)
+        cnt("gcc_type_" + ty)
+        if it["fam"] != "base":
+            cnt("gcc_type_%s_in_family_%s" % (ty, it["fam"]))
+        first = set(values)
+        for v in string_inputs(gf):
+            if v in first:
+                continue
+            w = gf["casts"][v]
+            if w in first:
+                cnt("string_cast_wraps_onto_enumerator")
+            elif w != v:
+                cnt("string_decimal_of_wrapped_cast")
+            elif w > 2 ** 31 - 1:
+                cnt("string_decimal_above_INT_MAX")
+            elif w < -2 ** 31:
+                cnt("string_decimal_below_INT_MIN")
+            else:
+                cnt("string_decimal_small")
+    else:
+        cnt("no_type_name_values_only")
+    if len(set(values)) < len(values):
+        cnt("has_duplicate_values")
+    kinds = set(e[0] for e in it["seq"])
+    for c, label in (("i", "has_implicit"), ("r", "has_backref"), ("x", "refers_to_enumerator_of_earlier_tagged_enum"),
+                     ("a", "refers_to_enumerator_of_earlier_anonymous_enum"), ("d", "refers_to_define"),
+                     ("h", "has_hex_octal_or_suffixed_literal")):
+        if c in kinds:
+            cnt(label)
+    names = it["names"]
+    if names != sorted(names):
+        cnt("names_sorted_order_differs_from_declaration_order")
+    if any(a != b and b.startswith(a) for a in names for b in names):
+        cnt("names_one_is_prefix_of_another")
+    if len(names) >= 100:
+        cnt("has_100_or_more_enumerators")
+    if max(values) > 2 ** 31 - 1:
+        cnt("value_above_INT_MAX")
+    if max(values) > 2 ** 32 - 1:
+        cnt("value_above_UINT_MAX")
+    if max(values) > 2 ** 63 - 1:
+        cnt("value_above_LONG_MAX")
+    if min(values) < -2 ** 31:
+        cnt("value_below_INT_MIN")
+    if min(values) < 0:
+        cnt("has_negative")
+    if it["struct"]:
+        cnt("field_offset_%d" % gf["offset"])
+
+
 def work(job):
-    """job = (first index, [seq, ...]), all accepted by gcc -> (n, class counts, mismatches, samples)"""
-    base, seqs = job
-    items = [("e%d" % (base + i), s, enum_text(s, "e%d" % (base + i))) for i, s in enumerate(seqs)]
-    good = items
+    """job = {"base": first index, "specs": [...] all accepted by gcc, "prelude": bool, "include": bool}
+    -> (n, evaluations, class counts, mismatches, samples)"""
+    base = job["base"]
+    items = [make_item("e%d" % (base + i), s) for i, s in enumerate(job["specs"])]
     counts = {}
 
     def cnt(k, n=1):
         counts[k] = counts.get(k, 0) + n
     out = []
-    if good:
-        facts = gcc_facts(good)
-        for tag, seq, text in good:
-            size, signed, values = facts[tag]
-            cnt("gcc_type_%s%d" % ("i" if signed else "u", size * 8))
-            if len(set(values)) < len(values):
-                cnt("has_duplicate_values")
-            for c in classes(seq):
-                cnt(c)
-            if max(values) > 2 ** 31 - 1:
-                cnt("value_above_INT_MAX")
-            if max(values) > 2 ** 32 - 1:
-                cnt("value_above_UINT_MAX")
-            if max(values) > 2 ** 63 - 1:
-                cnt("value_above_LONG_MAX")
-            if min(values) < -2 ** 31:
-                cnt("value_below_INT_MIN")
-            if min(values) < 0:
-                cnt("has_negative")
+    ev = [0]
+    samples = []
+    if items:
+        facts = gcc_facts(items, job["prelude"])
+        for it in items:
+            classify(it, facts[it["tag"]], cnt)
         for mode in MODES:
-            run_mode(mode, good, facts, out)
-    samples = [{"decl": t, "gcc": facts[tag]} for tag, s, t in good[:2]] if good else []
-    return len(items), counts, out, samples
+            run_mode(mode, items, facts, job["prelude"], job["include"], out, ev)
+        for it in items[:2]:
+            gf = facts[it["tag"]]
+            text = it["text"] if len(it["text"]) < 300 else it["text"][:300] + " ..."
+            samples.append({"decl": text, "family": it["fam"], "gcc": [gf["size"], gf["signed"], gf["values"][:8]]})
+    return len(items), ev[0], counts, out, samples
 
 
-def filter_by_gcc(ctx, seqs):
+def filter_by_gcc(ctx, specs):
     """Ask gcc about every declaration (chunks of one syntax-only run each)."""
     good = []
-    chunks = [seqs[i:i + 1500] for i in range(0, len(seqs), 1500)]
+    chunks = [specs[i:i + 1500] for i in range(0, len(specs), 1500)]
 
     def one(chunk):
-        return gcc_accepts([enum_text(s, "e%d" % i) for i, s in enumerate(chunk)])
+        return gcc_accepts([make_item("e%d" % i, s)["text"] for i, s in enumerate(chunk)])
     for chunk, r in pool.pmap(one, [[c] for c in chunks]):
         if isinstance(r, (pool.WorkerError, pool.Crash)):
             raise InfraError("gcc acceptance pass failed: %r" % (r,))
@@ -394,66 +476,119 @@ def filter_by_gcc(ctx, seqs):
                 good.append(s)
             else:
                 ctx.count("excluded_gcc_error" if a == "error" else "excluded_gcc_says_no_integer_type_fits")
+                ctx.count("excluded_in_family_" + s[0])
         for w in other:
             ctx.count("gcc_other_warning: " + w[:80])
-    order = {s: i for i, s in enumerate(seqs)}
+    order = {s: i for i, s in enumerate(specs)}
     good.sort(key=order.__getitem__)
     return good
 
 
+def make_jobs(good):
+    """Blocks of specs that are declared together in one FFI per mode.  Long enums are spread one per block
+    (they cost as much as a block); the include family gets its own blocks (every module is built twice)."""
+    groups = {}
+    for s in good:
+        big = s[0] == "big"
+        key = (s[0] == "include", sp.needs_prelude(s), big)
+        groups.setdefault(key, []).append(s)
+    jobs = []
+    base = 0
+    for key in sorted(groups):
+        lst = groups[key]
+        step = 1 if key[2] else BLOCK
+        for i in range(0, len(lst), step):
+            part = lst[i:i + step]
+            jobs.append({"base": base, "specs": part, "prelude": key[1], "include": key[0]})
+            base += len(part)
+    # the most expensive first
+    jobs.sort(key=lambda j: -(len(j["specs"]) * (2 if j["include"] else 1) + sum(len(s[3]) for s in j["specs"]) // 4))
+    return jobs
+
+
+def sig_of(kind, mode, it):
+    sig = {"kind": kind, "mode": mode}
+    if it["fam"] != "base":
+        # new families: say which shape it was (the base family keeps its two-key signature)
+        sig["family"] = it["fam"]
+        sig["form"] = it["form"]
+    return sig
+
+
+def detail_of(job, mode, it, kind, got, want):
+    return {"spec": it["spec"], "decl": it["text"], "mode": mode, "kind": kind, "observed": got, "gcc": want,
+            "prelude": job["prelude"], "include": job["include"]}
+
+
 def run(ctx):
-    seqs, plan = enumerate_space(ctx)
-    total = len(seqs)
-    good = filter_by_gcc(ctx, seqs)
-    blocks = []
-    for i in range(0, len(good), BLOCK):
-        blocks.append((i, good[i:i + BLOCK]))
-    ctx.log("%d enum declarations, %d accepted by gcc, %d blocks" % (total, len(good), len(blocks)))
+    specs, bounds = sp.enumerate_space(ctx.quick)
+    total = len(specs)
+    per_family = {}
+    for s in specs:
+        per_family[s[0]] = per_family.get(s[0], 0) + 1
+    good = filter_by_gcc(ctx, specs)
+    jobs = make_jobs(good)
+    ctx.log("%d enum declarations %s, %d accepted by gcc, %d blocks" % (total, per_family, len(good), len(jobs)))
     accepted = 0
-    for job, r in pool.pmap(work, [[b] for b in blocks], item_timeout=1500):
+    evaluations = 0
+    for job, r in pool.pmap(work, [[j] for j in jobs], item_timeout=1500):
         if isinstance(r, pool.WorkerError):
             raise InfraError("worker failed: %s" % r.tb)
         if isinstance(r, pool.Crash):
-            ctx.violation({"kind": "crash"}, {"first": job[0], "seqs": job[1], "how": r.describe()})
+            ctx.violation({"kind": "crash", "families": sorted(set(s[0] for s in job["specs"]))},
+                          {"job": job, "how": r.describe()})
             continue
-        n, counts, out, samples = r
+        n, nev, counts, out, samples = r
         accepted += n
+        evaluations += nev
         for k, v in counts.items():
             ctx.count(k, v)
         for s in samples:
             ctx.sample(s)
-        for mode, tag, seq, text, bad in out:
+        for mode, it, bad in out:
             for kind, got, want in bad:
-                ctx.violation({"kind": kind, "mode": mode},
-                              {"seq": seq, "decl": text, "mode": mode, "kind": kind, "observed": got, "gcc": want})
+                ctx.violation(sig_of(kind, mode, it), detail_of(job, mode, it, kind, got, want))
+    plan = sp.base_plan(ctx.quick)
     cov = {
-        "evaluations": accepted * len(MODES),
+        "evaluations": evaluations,
         "distinct_nontrivial": accepted,
-        "rule": "every enumerator sequence of the plan %s (length, alphabet size) where each enumerator is one of the "
+        "rule": "base family: every enumerator sequence of the plan %s (length, alphabet size) where each enumerator is one of the "
                 "alphabet's explicit values, implicit, or '= <any earlier enumerator>'; alphabet = %s; subsets = %s / %s; "
-                "non-trivial = accepted by gcc -std=gnu11, so sizeof/signedness/values/ffi.string were compared in 3 "
-                "modes (distinct declarations counted); declarations gcc rejects with an error, or for which it warns that "
-                "no integer type can hold the values, are excluded" % (
+                "further families, each a full product: %s; "
+                "non-trivial = accepted by gcc -std=gnu11, so sizeof/signedness/values/ffi.string (own values + the casts %s) "
+                "were compared in 3 modes, the include family in 6 (distinct declarations counted); declarations gcc rejects "
+                "with an error, or for which it warns that no integer type can hold the values, are excluded" % (
                     [(n, len(a)) for n, a in plan], [v[0] for v in VALUES], [VALUES[i][0] for i in SUBSET],
-                    [VALUES[i][0] for i in SUBSET5]),
+                    [VALUES[i][0] for i in SUBSET5],
+                    "; ".join("(%s) %s" % (k, v) for k, v in bounds.items() if k != "base"), CASTS),
         "exhaustive": True,
         "declarations": total,
+        "declarations_per_family": per_family,
         "excluded_rejected_by_gcc": total - accepted,
-        "bound": {"plan": [[n, len(a)] for n, a in plan]},
+        "bound": {"plan": [[n, len(a)] for n, a in plan], "families": bounds},
     }
-    return ctx.finish(cov, ["gcc 12 -std=gnu11 decides validity, size, signedness and values of every declaration"])
+    return ctx.finish(cov, ["gcc 12 -std=gnu11 decides validity, size, signedness and values of every declaration, and "
+                            "the value of (enum type)(constant) for the casts"])
 
 
 def replay(detail):
-    seq = tuple(tuple(e) for e in detail["seq"])
-    print(enum_text(seq, "e0"))
-    acc, other = gcc_accepts([enum_text(seq, "e0")])
+    if "spec" in detail:
+        spec = sp.norm_spec(detail["spec"])
+    else:                               # replay files written before the families existed
+        spec = sp.norm_spec(("base", "tag", ("L",), detail["seq"]))
+    if "job" in detail:
+        print("a crashed block is replayed by running the check again")
+        return 0
+    it = make_item("e0", spec)
+    print(it["text"])
+    acc, other = gcc_accepts([it["text"]])
     if acc[0] is not None:
         print("gcc has no answer for this declaration (%s): excluded" % acc[0])
         return 0
-    n, counts, out, samples = work((0, [seq]))
+    job = {"base": 0, "specs": [spec], "prelude": sp.needs_prelude(spec), "include": bool(detail.get("include"))}
+    n, nev, counts, out, samples = work(job)
     hit = 0
-    for mode, tag, s, text, bad in out:
+    for mode, it, bad in out:
         if mode != detail.get("mode", mode):
             continue
         for b in bad:
